@@ -95,6 +95,11 @@ R.contract(
         "implies(not known, result.max_stream_data_local == (self._local_max_stream_data_uni if uni(stream_id) else self._local_max_stream_data_bidi_remote))",
         "implies(not known, result.receiver.highest_offset == 0)",
         "implies(known, result.max_stream_data_local == old(result.max_stream_data_local) and result.receiver.highest_offset == old(result.receiver.highest_offset))",
+        # streams are only added; the streams that existed keep their identity and their send half (needed by the C16 clause of
+        # the STOP_SENDING handler: a peer frame does not make another stream unwritable)
+        "forall(lambda k: (k in self._streams) == (k in old(self._streams) or k == stream_id))",
+        "forall(lambda k: implies(k in old(self._streams), self._streams[k] == old(self._streams)[k]))",
+        "forall(lambda k: implies(k in old(self._streams) and pre_existing(old(self._streams)[k]), self._streams[k].sender == old(self._streams[k].sender)))",
     ],
     prop=["C07"],
 )
@@ -131,6 +136,11 @@ R.contract(
         "offset + length <= 4611686018427387903",
         "offset + length <= g_lim and g_lim == stream.max_stream_data_local",
         "self._local_max_data.used == old(self._local_max_data.used) + max(0, offset + length - g_h0)",
+        # C07 'a peer that stays within the advertised limits is never accused' (taken from the property, not from the code):
+        # CONSERVATION - what is charged to the connection window is exactly the advance of this stream's high-water mark, so
+        # that  used == SUM over streams of receiver.highest_offset  is preserved and a repeated frame (retransmission,
+        # duplicated datagram) is charged nothing
+        "self._local_max_data.used - old(self._local_max_data.used) == stream.receiver.highest_offset - g_h0",
         "self._local_max_data.used <= self._local_max_data.value and self._local_max_data.value == old(self._local_max_data.value)",
         "stream.receiver.highest_offset == max(g_h0, offset + length)",
         "not (g_fs0 is not None and (offset + length > g_fs0 or (frame.fin and offset + length != g_fs0)))",
@@ -173,6 +183,11 @@ R.contract(
     ensures=[
         "final_size <= g_lim and g_lim == stream.max_stream_data_local",
         "self._local_max_data.used == old(self._local_max_data.used) + max(0, final_size - g_h0)",
+        # C07 'a peer that stays within the advertised limits is never accused' (taken from the property, not from the code):
+        # CONSERVATION - what is charged to the connection window is exactly the advance of this stream's high-water mark, so
+        # that  used == SUM over streams of receiver.highest_offset  is preserved and a repeated frame (retransmission,
+        # duplicated datagram) is charged nothing
+        "self._local_max_data.used - old(self._local_max_data.used) == stream.receiver.highest_offset - g_h0",
         "self._local_max_data.used <= self._local_max_data.value and self._local_max_data.value == old(self._local_max_data.value)",
         "not (g_fs0 is not None and final_size != g_fs0)",
         "stream.receiver._final_size == final_size and stream.receiver.is_finished",
